@@ -207,6 +207,11 @@ def run_typing(case):
         res['ne12'] = bool(vals[0][1] != vals[1][1])
     if vals[0][0]:
         try:
+            hash(vals[0][1])
+            res['hashable'] = True
+        except TypeError:      # a list somewhere inside: never an annotation; _update_context may trip over it
+            res['hashable'] = False
+        try:
             keys = cd._update_context(context={}, type_=vals[0][1])
             res['upd'] = sorted(k for k in keys if isinstance(k, str))
             res['upd_bad'] = [repr(k) for k, v in keys.items() if not (isinstance(v, type) and v.__name__ == k)]
